@@ -182,6 +182,54 @@ def u_close(n, skip):
     cover("accepted" if ok else "rejected")
 
 
+def u_reconnect(n, lost):
+    """a text message is cut off by connection loss after a non-final fragment (or inside a frame); the application calls
+    connect() again on the SAME object; the first message of the new connection is judged on its own bytes only"""
+    quiet_logging()
+    from websocket._exceptions import (WebSocketConnectionClosedException, WebSocketPayloadException,
+                                       WebSocketProtocolException)
+    from .c03 import HandshakeSock
+    import websocket._handshake as HS
+    from .common import FakeOs
+    stale = sx.sym_bytes("o", 2)
+    if lost == "between-fragments":
+        first = server_frame(0, 1, stale)
+    else:  # inside a frame: header announces 5 bytes, 2 arrive
+        first = bytes([0x81, 5]) + stale
+    data = sx.sym_bytes("d", n)
+    real_os = HS.os._real if isinstance(HS.os, FakeOs) else HS.os
+    HS.os = FakeOs(real_os, lambda k: bytes(range(k)))
+    try:
+        ws = new_ws(None)
+        ws.connect("ws://example.test/a", socket=HandshakeSock(first, []))
+        try:
+            ws.recv_data()
+            sx.require(False, "incomplete message delivered")
+            return
+        except WebSocketConnectionClosedException:
+            pass
+        ws.connect("ws://example.test/a", socket=HandshakeSock(server_frame(1, 1, data), []))
+        try:
+            op, out = ws.recv_data()
+            ok = True
+        except (WebSocketPayloadException, WebSocketProtocolException):
+            ok = False
+        except (sx.Control, sx.ConcreteFailure, sx.ReplayMismatch):
+            raise
+        except Exception as e:
+            sx.require(False, "receive on the re-connected object raised %s" % type(e).__name__, lost=lost)
+            return
+    finally:
+        HS.os = real_os
+    sx.require(sx.Iff(ok, sx.utf8_valid(data)), "after connect() on the same object a text message is accepted exactly when ITS payload is "
+               "well-formed (nothing of the interrupted message lingers)", n=n, lost=lost)
+    if ok:
+        sx.require(sx.And(op == 1, out == data), "delivered payload is the new message only", n=n, lost=lost)
+        cover("re-accepted")
+    else:
+        cover("re-rejected")
+
+
 def _all_cuts(n, maxfrag):
     import itertools
     out = [()]
@@ -213,6 +261,10 @@ def obligations(tier):
                    "(incl. empty fragments and cuts inside a code point); validation on and off" % (4 if thorough else 3, 4 if thorough else 3),
                    must_cover=["accepted", "rejected", "skip-delivered"], budget_s=1800,
                    kernel=["continuous_frame.extract", "continuous_frame.add", "recv_data_frame", "validate_utf8"]),
+        Obligation("U-reconnect", u_reconnect, [dict(n=n, lost=l) for n in (1, 2, 3) for l in ("between-fragments", "inside-frame")],
+                   bounds="connection lost after a non-final text fragment / inside a frame (2 symbolic bytes), connect() again on the same object, "
+                          "then a text frame of 1..3 arbitrary bytes", must_cover=["re-accepted", "re-rejected"],
+                   kernel=["WebSocket.connect", "frame_buffer", "continuous_frame", "recv_data_frame"]),
         Obligation("U-recv", u_recv, [dict(n=n) for n in range(0, 5 if thorough else 4)],
                    bounds="single text frame of 0..%d arbitrary bytes through recv()" % (4 if thorough else 3),
                    must_cover=["accepted", "rejected"], kernel=["WebSocket.recv"]),
